@@ -24,8 +24,8 @@ def compare_cell(res, rec, gi, tol, k_in):
     # the hypothesis of C01_vertices_feasible_3d / C01_hull_in_region_3d, evaluated by the extracted model for this cell
     if "regular" in raw:
         res.count("theorem-hypothesis:regular" if raw["regular"] else "theorem-hypothesis:not-regular")
-        if raw["regular"] and inp["dim"] == 3 and not raw.get("feasible", True):
-            res.violation("corr:theorem-contradicted", f"cell {gi}: the model is regular but a vertex violates a bisector: contradicts C01_vertices_feasible_3d "
+        if raw["regular"] and not raw.get("feasible", True):
+            res.violation("corr:theorem-contradicted", f"cell {gi}: the model is regular but a vertex violates a bisector: contradicts C01_vertices_feasible_any_dim "
                           "(extraction or driver defect)", ctx, no_input=True)
     if not raw.get("feasible", True):
         res.violation("corr:model-early-stop", f"exact model: a vertex of cell {gi} violates the bisector of some site (early termination unsound?)", ctx, no_input=True)
